@@ -5,90 +5,118 @@ from pathlib import Path
 VERIF = Path(__file__).resolve().parent.parent
 props = [json.loads(l) for l in (VERIF / "properties.jsonl").read_text().splitlines() if l.strip()]
 
+TB = ("Trusted: Coq 8.16.1 kernel + vm_compute (no native_compute, no axioms: Print Assumptions of every theorem is 'Closed under the global "
+      "context'); hand-written Gallina models (modelled, not verified) tied to /repo on every run by evaluating them inside Coq on the inputs the "
+      "implementation runs; harness (generators, serialisers, canonicalisers). ")
+
 CLAIMED = {
-    "C15": {
-        "text": "Machine-checked theorems (Coq 8.16.1, axiom-free) about a Gallina model of the configuration loader: "
-                "non-interference of threads for every operation history and interleaving (c15_local, c15_interleaving), "
-                "scope semantics incl. exceptional exit and identifier reuse (c15_scope), rejected operations are no-ops "
-                "(c15_reject), type coercion (c15_coerce_type).  The model is tied to sqllineage/config.py on every run by "
-                "evaluating it inside Coq (vm_compute) on the same histories and thread programs the real loader executes.",
-        "design_ref": "DESIGN.md section 6 C15, Appendix A",
-        "note": "Trusted: Coq kernel + vm_compute; hand-written model Config/Model.v (modelled, not verified, tied by differential "
-                "correspondence); harness. Assumes CPython dict/set method atomicity (exercised by tap-pre-empted real threads, "
-                "not proved); values restricted to str/int/bool.",
-        "technique": "Coq proof (induction over op histories, non-interference) + model/code correspondence via vm_compute",
-    },
-    "C17": {
-        "text": "Machine-checked theorems (axiom-free) about a Gallina model of the web handler's path logic on segment lists: "
-                "every POST request that passes the root check reads only a path that resolves under the root, for all roots, working "
-                "directories and spellings (c17_post_contained); GET without '..' stays under the static folder (c17_get_contained); "
-                "lexical resolution is a normal form, idempotent and cancels x/.. (c17_resolve_*).  The model is tied to sqllineage/drawing.py "
-                "by sending every enumerated request to the real WSGI app against a scratch tree with marker files outside the root.",
-        "design_ref": "DESIGN.md section 6 C17, Appendix B",
-        "note": "Trusted: Coq kernel + vm_compute; hand-written model Web/PathModel.v of pathlib parse/absolute/resolve/parent/is_relative_to "
-                "(modelled, tied differentially); harness. Assumes no symlinks under the roots; WSGI server/HTTP layer not modelled.",
-        "technique": "Coq proof (induction over segment lists) + exhaustive request enumeration against the real app",
-    },
-    "C16": {
-        "text": "Machine-checked theorems (axiom-free) about a Gallina model of escape_identifier_name and the Schema/Table constructors: "
-                "case-insensitivity of unquoted identifiers, quoted identifiers keep case and lose only quotes (each quote style), last-dot split "
-                "and part limit, idempotence on stable names, and the position theorem (every syntactic position reports the same name and a "
-                "two-statement chain is found whenever the once-normalised name is stable); refutations for quoted upper-case names (known "
-                "findings K-C16-1/2).  Tied by exhaustive spellings through the real functions and through real SQL at every position per dialect.",
-        "design_ref": "DESIGN.md section 6 C16",
-        "note": "Trusted: Coq kernel + vm_compute; hand-written models Ident/Escape.v, Ident/Positions.v (the per-position count of "
-                "normalisations is read from the code and tied differentially); ASCII identifiers only. The unguarded position statement is "
-                "false of the code (K-C16-1, K-C16-2 recorded, not repaired).",
-        "technique": "Coq proof (string induction, 256-case character sweeps) + exhaustive spelling x position correspondence",
-    },
-    "C03": {
-        "text": "Machine-checked theorems (axiom-free) about a Gallina model of SQLLineageHolder._build_digraph and the role accessors at dataset "
-                "level: for scripts without DROP/RENAME the edge set and the source/target/intermediate classification equal the property's "
-                "own definition computed from the set of statements (hence order- and repetition-invariance), DROP removes only isolated "
-                "tables and never disturbs others, a single RENAME to a fresh name puts y in x's place; refutation for chained RENAME pairs "
-                "(K-C03-1).  Tied by all histories of abstract statements built through the public holder API and by generated SQL scripts "
-                "whose per-statement holders (statement tap) are abstracted and fed to the model.",
-        "design_ref": "DESIGN.md section 6 C03",
-        "note": "Trusted: Coq kernel + vm_compute; hand-written model Holder/TableLevel.v and the harness abstraction of a holder graph "
-                "(dataset nodes, read/write/drop/rename, datasets with non-dataset neighbours). Column-level part of _build_digraph is not in "
-                "this model.",
-        "technique": "Coq proof (fold invariant over statement lists; executable spec) + exhaustive abstract histories + SQL scripts",
-    },
-    "C18": {
-        "text": "Machine-checked theorems (axiom-free) about a Gallina model of io.to_cytoscape on insertion-ordered graphs keyed by Python "
-                "equality: every edge endpoint and every compound-parent reference is the id of an exported node, every column carries a "
-                "parent, nodes/edges are exported exactly once each, owners once up to equality, ids unique when printing is injective "
-                "(partial; the unguarded statement is refuted: K-C18-1), summary lists sorted with the same members.  Tied by running the model "
-                "inside Coq on the very sub-graphs the implementation exports, for every corpus and generated result, plus POST /lineage.",
-        "design_ref": "DESIGN.md section 6 C18",
-        "note": "Trusted: Coq kernel + vm_compute; hand-written models NX/Graph.v + Holder/Build.v; harness graph serialisation. "
-                "Duplicate ids for owners that print alike are a recorded finding (K-C18-1).",
-        "technique": "Coq proof (list/dictionary invariants) + model evaluated on the implementation's own graphs",
-    },
-    "C06": {
-        "text": "Machine-checked theorems (axiom-free) about a Gallina model of get_column_lineage / all_simple_paths on the full lineage "
-                "graph: every reported path has >=2 nodes (fix F4), is a duplicate-free chain of edges from an in-degree-0 column to an "
-                "out-degree-0 table-owned column; path enumeration is sound and complete; nodes are retrievable by equality, equality is an "
-                "equivalence, a resolved column has one owner.  The model of _build_digraph + paths is tied by feeding it the implementation's "
-                "per-statement holders (statement tap) for every corpus and generated script and comparing graph, roles and paths; projection "
-                "onto table lineage is evaluated on the implementation directly (S), with two recorded defect classes (K-C06-1/2).",
-        "design_ref": "DESIGN.md section 6 C06",
-        "note": "Trusted: Coq kernel + vm_compute; hand-written models NX/Graph.v + Holder/Build.v; harness serialisation of holder graphs. "
-                "The projection clause is checked, not proved (it depends on how extractors populate holders).",
-        "technique": "Coq proof (induction on fuel/paths) + holder-level correspondence on corpus and generated scripts",
-    },
-    "C12": {
-        "text": "Machine-checked theorems (axiom-free) about a Gallina model of MetaDataProvider/MetaDataSession and the statement loop of "
-                "LineageRunner._eval, for an arbitrary per-statement analysis function: the session is empty after every run incl. failing "
-                "ones, a reused provider answers as a fresh one, the outcome of a run is independent of the history of runs.  Tied by histories "
-                "of runs (failure at every position, provider faults at every lookup index, falsy and truthy providers, the shared default "
-                "provider) on the real runner, plus shuffled corpus histories and 16-thread pools.",
-        "design_ref": "DESIGN.md section 6 C12",
-        "note": "Trusted: Coq kernel + vm_compute; hand-written model Provider/Session.v (+ table-driven analyser Provider/Abstract.v for the "
-                "tie); thread non-interference is exercised (pools), not proved here beyond C15's locality; sqlfluff/SQLAlchemy caches not modelled.",
-        "technique": "Coq proof (state-machine invariant over run histories) + exhaustive failure-point histories",
-    },
+ "C01": dict(
+  text="Tree model of the sqlfluff extractors (Tree/*.v, ~1500 lines of Gallina following the Python line by line) is run inside Coq on the very parse "
+       "trees the implementation analyses (corpus + generated statements, several dialects); the denotational specification Ast/Spec.v (reads/writes) "
+       "is evaluated on the generated abstract syntax and compared with the implementation. Proved: statements that move no data report nothing, "
+       "unsupported statements are refused/skipped, refutation witnesses of 4 recorded defect classes.",
+  ref="DESIGN.md section 6 C01, section 12", note=TB + "Exactness M = S is checked by correspondence (I = M on every tree, I = S on every generated "
+       "statement inside the guard), not proved (Lemma A not done). Parser = oracle.",
+  tech="Coq model of the extractors evaluated on the parser's trees + executable Coq specification on generated ASTs"),
+ "C02": dict(
+  text="As C01 for end-to-end column pairs: tree model + assembly + path enumeration (Holder/Build.v) inside Coq on the implementation's parse trees; "
+       "specification spec_flows (aliases shadow names, unresolved columns keep candidates, set operations positional, derived tables and CTEs by "
+       "composition) evaluated on generated ASTs. Proved: refutation witnesses of 6 recorded defect classes.",
+  ref="DESIGN.md section 6 C02, section 12", note=TB + "M = S not proved; guarded generator excludes recorded classes K-C02-1..6 (replayed separately).",
+  tech="Coq model evaluated on the parser's trees + executable Coq specification on generated ASTs"),
+ "C03": dict(
+  text="Theorems about a Gallina model of SQLLineageHolder._build_digraph and the role accessors at dataset level: for scripts without DROP/RENAME "
+       "edges and source/target/intermediate equal the property's definition computed from the set of statements (order and repetition invariance), "
+       "DROP removes only isolated tables and disturbs nothing else, single RENAME to a fresh name puts y in x's place; chained RENAME refuted (K-C03-1).",
+  ref="DESIGN.md section 6 C03", note=TB + "Abstraction of a holder graph to (dataset nodes, read/write/drop/rename, wired) is harness code.",
+  tech="Coq proof (fold invariant, executable spec) + exhaustive abstract histories + SQL scripts"),
+ "C04": dict(
+  text="Theorems: path enumeration sound and complete, session view after each statement. The whole pipeline (statement loop with session metadata, "
+       "assembly, path enumeration) of the model Tree/Script.v runs inside Coq on the implementation's parse trees for multi-statement chains with "
+       "and without metadata; relational composition of the per-statement dataflows and the created-earlier scenarios are evaluated on the implementation.",
+  ref="DESIGN.md section 6 C04", note=TB + "Composition equality itself is checked (S1), not proved; recorded classes K-C04-1/2/3.",
+  tech="Coq proof (paths, session) + full-pipeline model correspondence on chains"),
+ "C05": dict(
+  text="Theorems: the token-level model of sqlparse's statement splitter + helpers.split returns exactly the non-empty statements for every separator "
+       "variant (also without final semicolon), splitting is idempotent; with a falsy provider the statement loop analyses each statement on its own "
+       "(proved over the whole tree model). Tied by token sequences against the real split and by scripts x separator variants, incl. T-SQL without semicolons.",
+  ref="DESIGN.md section 6 C05", note=TB + "sqlparse lexer and the T-SQL batch splitter (sqlfluff) are oracles; BEGIN/DECLARE/GO outside the model.",
+  tech="Coq proof (splitter invariant; provider independence by induction on fuel) + differential token sequences"),
+ "C06": dict(
+  text="Theorems about get_column_lineage / all_simple_paths on the full lineage graph: >=2 nodes (fix F4), duplicate-free chain from an in-degree-0 column "
+       "to an out-degree-0 table-owned column, enumeration sound and complete, node equality an equivalence, nodes retrievable, one owner per resolved column. "
+       "Model of _build_digraph + paths fed with the implementation's per-statement holders for corpus and generated scripts.",
+  ref="DESIGN.md section 6 C06", note=TB + "Projection onto table lineage is evaluated on the implementation (S), recorded classes K-C06-1/2.",
+  tech="Coq proof (induction on fuel/paths) + holder-level correspondence"),
+ "C07": dict(
+  text="Theorems: unquoted identifiers case-insensitive, quoting a lower-case identifier changes nothing, separators/comments/extra semicolons do not change "
+       "the statement list, and every navigation combinator of the extractors commutes with erasing whitespace/comment/meta segments on well-formed trees. "
+       "Metamorphic comparison on the implementation under 11 token-level rewrites per dialect; tie on the rewritten text.",
+  ref="DESIGN.md section 6 C07", note=TB + "Invariance of the whole extractor is checked (I(rewrite) = I(plain), I = M on rewritten trees), not proved; "
+       "tree well-formedness assumptions of the theorems are monitored on every tree.",
+  tech="Coq proof (string laws, splitter, strong induction on rose trees) + metamorphic rewrites"),
+ "C08": dict(
+  text="Theorem: the specification (tables and column flows) is invariant under admissible renaming of aliases, derived-table aliases and CTE names; the naive "
+       "admissibility was refuted by the proof attempt and three necessary side conditions added. Metamorphic comparison on the implementation under six "
+       "adversarial renaming pools x AS keyword, per dialect; I = S on the unrenamed statement.",
+  ref="DESIGN.md section 6 C08", note=TB + "The theorem is about the specification; the implementation is tied to it by C01/C02-style comparison and by the metamorphic check.",
+  tech="Coq proof (alpha-equivalence of the denotational spec) + metamorphic renamings"),
+ "C09": dict(
+  text="Theorem: the extractors are dialect-parametric (the dialect name is only compared with 'vertica'), so cross-dialect agreement reduces to agreement of "
+       "parse trees (parser oracle). Every generated statement is analysed under all 28 installed dialects and the legacy analyzer; the tie holds per dialect.",
+  ref="DESIGN.md section 6 C09", note=TB + "Tree-shape agreement across dialects and the legacy analyzer are observed, not proved; recorded classes K-C09-1/2/6.",
+  tech="Coq proof (parametricity by construction) + cross-dialect differential run"),
+ "C10": dict(
+  text="Theorems: unsupported statement types raise the library's own exception or become an empty holder in silent mode, and an empty holder never changes the "
+       "assembled result (any position). Every partial Python operation is an explicit error value in the tree model, whose error kind is compared with the "
+       "implementation's on mutated statements; the malformed stream (5000/42000 cases x 20 dialects) must only raise library exceptions.",
+  ref="DESIGN.md section 6 C10", note=TB + "Totality over all strings is explored, not proved (parser oracle); four escapes repaired (fix commits), NetworkXError on chained RENAME recorded.",
+  tech="Coq proof (dispatch, silent skip) + error-kind correspondence + malformed-input stream"),
+ "C11": dict(
+  text="Theorems: sorted accessor outputs and path listings are invariant under permutation of the underlying collections; at dataset level the assembled result "
+       "depends only on the set of statements. The implementation runs in fresh interpreters under 4/32 hash seeds with shuffled repeated accessor calls.",
+  ref="DESIGN.md section 6 C11", note=TB + "Hash seeds are sampled; five order-dependence classes recorded (K-C11-1..5).",
+  tech="Coq proof (Permutation-invariance) + multi-seed differential run"),
+ "C12": dict(
+  text="Theorems about MetaDataProvider/MetaDataSession and the statement loop for an arbitrary analysis function: session empty after every run incl. failures, "
+       "reused provider answers as a fresh one, outcome independent of the history of runs. Histories with failure at every position, provider faults at every "
+       "lookup index, falsy/truthy/default providers, shuffled corpus history, 16-thread pool.",
+  ref="DESIGN.md section 6 C12", note=TB + "Thread non-interference exercised, not proved; sqlfluff/SQLAlchemy caches not modelled.",
+  tech="Coq proof (state-machine invariant over run histories) + exhaustive failure-point histories"),
+ "C13": dict(
+  text="Theorem: a provider without metadata is never consulted (analysis independent of what it would answer), refutation witnesses K-C13-1/2. On the "
+       "implementation: table lineage unchanged under every metadata assignment, unknown tables same answer, star expansion, unqualified attribution "
+       "(lists/lacks/unknown), target positions; tie of the tree model with a provider view.",
+  ref="DESIGN.md section 6 C13", note=TB + "The refinement clauses are evaluated on the implementation for templated statements, not proved.",
+  tech="Coq proof (provider independence) + clause scenarios + model correspondence with metadata"),
+ "C14": dict(
+  text="The specification takes the default schema as a parameter; on the implementation, scoped override = environment variable (fresh process) = explicit "
+       "qualification = specification, for every generated statement incl. qualified names spelled as one quoted dotted identifier. Regression witness for fix F5.",
+  ref="DESIGN.md section 6 C14", note=TB + "The equivalence is checked, not proved.",
+  tech="Coq model with call-time/import-time default + three-way metamorphic comparison"),
+ "C15": dict(
+  text="Theorems about the configuration loader: non-interference of threads for every history and interleaving, scope semantics incl. exceptional exit and "
+       "identifier reuse, rejected operations are no-ops, type coercion. Model evaluated inside Coq on the same histories / thread programs; real threads "
+       "pre-empted at the taps and between any two lines of config.py.",
+  ref="DESIGN.md section 6 C15, Appendix A", note=TB + "CPython dict/set atomicity assumed (exercised by line-level pre-emption).",
+  tech="Coq proof (induction over op histories) + exhaustive histories + line-level pre-emption"),
+ "C16": dict(
+  text="Theorems about escape_identifier_name and the Schema/Table constructors: case-insensitivity, quoting laws, last-dot split, idempotence on stable names, "
+       "position theorem; refutations for quoted upper-case names (K-C16-1/2). Exhaustive spellings through the real functions and real SQL per dialect.",
+  ref="DESIGN.md section 6 C16", note=TB + "ASCII identifiers only.",
+  tech="Coq proof (string induction, 256-case sweeps) + exhaustive spelling x position"),
+ "C17": dict(
+  text="Theorems about the web handler's path logic on segment lists: every passing POST reads only under the resolved root, GET without '..' stays under the "
+       "static folder, lexical resolution is a normal form. Every enumerated request goes to the real WSGI app against a scratch tree with outside markers.",
+  ref="DESIGN.md section 6 C17, Appendix B", note=TB + "No symlinks under the roots; HTTP layer not modelled.",
+  tech="Coq proof (induction over segment lists) + exhaustive request enumeration"),
+ "C18": dict(
+  text="Theorems about io.to_cytoscape: every edge endpoint and parent reference is an exported id, exactness, owners once up to equality, ids unique when printing "
+       "is injective (refuted otherwise: K-C18-1), summary sorted. Model evaluated on the very sub-graphs the implementation exports; POST /lineage.",
+  ref="DESIGN.md section 6 C18", note=TB,
+  tech="Coq proof (list/dictionary invariants) + model on the implementation's own graphs"),
 }
+CLAIMED = {k: {"text": v["text"], "design_ref": v["ref"], "note": v["note"], "technique": v["tech"]} for k, v in CLAIMED.items()}
 
 checks = []
 for pid, c in CLAIMED.items():
@@ -124,7 +152,7 @@ manifest = {
     }],
     "checks": checks,
     "not_applicable": na,
-    "notes": "fix commits in /repo: e020d83 (C15), c90fd36 (C17), baca01e (C06).  known_findings.json lists recorded defects.",
+    "notes": "fix commits in /repo: d6879c7, 1b08581, 0694b59, 335c6c0, a908979, baca01e, c90fd36, e020d83.  known_findings.json lists recorded defects (status known / fixed).",
 }
 (VERIF / "MANIFEST.json").write_text(json.dumps(manifest, indent=1) + "\n")
 print("claimed", sorted(CLAIMED), "not claimed", len(na))
